@@ -53,7 +53,8 @@ func Harness_C03_content_round_trip() {
 	name := c03Names[vm.Choice("name", len(c03Names))]
 	// 0..3 symbolic bytes, or 100 bytes (more than one copy chunk, so that encoders whose output depends on
 	// how their input is chunked see the same chunking in the size pass and in the write pass)
-	l := []int{0, 1, 2, 3, 100}[vm.Choice("len", 5)]
+	lenChoice := vm.Choice("len", 6)
+	l := []int{0, 1, 2, 3, 100, 6}[lenChoice]
 	content := make([]byte, l)
 	for i := range content {
 		if i < 3 {
@@ -61,6 +62,11 @@ func Harness_C03_content_round_trip() {
 		} else {
 			content[i] = byte('a' + i%23)
 		}
+	}
+	if lenChoice == 5 {
+		// a stored .gz / .zst / .bz2 / .lz4 file: the content starts with the magic number of a codec
+		magic := [][]byte{{0x1f, 0x8b, 0x08, 0x00}, {0x28, 0xb5, 0x2f, 0xfd}, {'B', 'Z', 'h', '9'}, {0x04, 0x22, 0x4d, 0x18}}[vm.Choice("magic", 4)]
+		copy(content, magic)
 	}
 	vm.Known("C03-empty-file-unreadable-under-gzip", l == 0 && pipes.Compression == config.CompressionFormatGZipKey)
 	vm.Known("C03-name-ending-in-codec-suffix", name != "/f" && (pipes.Compression != config.NoneKey || pipes.Encryption != config.NoneKey))
